@@ -6,7 +6,7 @@
 From Coq Require Import ZArith NArith List Bool.
 From NV Require Import Common.Outcome Lang.Types Lang.Types_proofs Lang.Pattern Lang.PatternSpec Lang.Store
   Lang.Pattern_proofs Lang.Pattern_proofs2 Lang.Pattern_proofs3 Lang.Store_proofs Lang.Pattern_inverts
-  Lang.Pattern_ops.
+  Lang.Pattern_ops Lang.Convert Lang.Convert_proofs.
 Import ListNotations.
 
 (* binding a value to a pattern never panics, whatever the pattern, value, mode and store:
@@ -173,6 +173,16 @@ Proof.
                  exact append_inverts_bytes|exact uncons_string|exact unsnoc_string].
 Qed.
 Print Assumptions C12_cons_snoc_other_sequences.
+
+(* ---- conversions: a type called with one argument (int(x), rational(x), list(x), vector(x), bytes(x),
+   dict(x), stream(x), number(x), float(x), type(x), Foo(x)), for the conversions that are
+   modelled (Lang/Convert.v; string parsing/formatting and float rounding are not): when it returns,
+   the result is of the type that was called.  `fields` is the struct table (any). *)
+Theorem C12_conversion_lands_in_type : forall (sat : N -> val -> outcome bool) (fields : N -> list (option val))
+  t v r,
+  convert fields t v = Some (Ok r) -> is_type sat t r = Ok true.
+Proof. exact conversion_lands_in_type. Qed.
+Print Assumptions C12_conversion_lands_in_type.
 
 (* ---- switch / catch *)
 Theorem C12_switch_first_match : forall (sat : N -> val -> outcome bool) (inexact : iop -> num -> num -> num)
